@@ -40,15 +40,17 @@ DETECTORS = [
     {"name": "stateless-class", "rule": SL_RULE, "flags": ["q_sl_exempt_test_name", "q_sl_exempt_mixin_name", "q_sl_lookup_by_name"],
      "model": "Model/StatelessCls.v"},
     {"name": "method-property", "rule": "method-property.should-be-property", "flags": ["q_mp_class_body_only"], "model": "Model/MethodProp.v"},
+    {"name": "conditional-verbose", "rule": "improper-logging.conditional-verbose", "flags": ["q_cv_per_enclosing_if"], "model": "Model/CondVerbose.v"},
 ]
+CV_RULE = "improper-logging.conditional-verbose"
 MP_RULE = "method-property.should-be-property"
-ACTUALS = "concat_actual stateless_actual method_actual"
+ACTUALS = "concat_actual stateless_actual method_actual cv_actual"
 FILE_LEVEL = ("file-header",)
 HEADER = ("From TL Require Import Lib.Base Lib.GenTypes Gen.EmbedGen Model.Embed Model.PrintStmt Model.PerfConcat Model.StatelessCls "
-          "Model.MethodProp Model.EmbedRun Model.EmbedRun2 Actual.EmbedActual.\n")
+          "Model.MethodProp Gen.Embed2Gen Model.CondVerbose Model.EmbedRun Model.EmbedRun2 Actual.EmbedActual.\n")
 PRINT_RULE = "improper-logging.print-statement"
 CONCAT_RULE = "performance.string-concat-loop"
-MODELLED = (PRINT_RULE, CONCAT_RULE, SL_RULE, "method-property.should-be-property")
+MODELLED = (PRINT_RULE, CONCAT_RULE, SL_RULE, "method-property.should-be-property", "improper-logging.conditional-verbose")
 MODELLED_LINTERS = ("perf", "improper-logging", "stateless-class", "method-property")
 STATEMENT_LEVEL = {"perf", "improper-logging", "lbyl", "magic-numbers", "unwrap-abuse", "clone-abuse", "blocking-async",
                    "lazy-ignores", "pipeline"}
@@ -136,7 +138,7 @@ def ctx_for(cls: str, lang: str, code: str):
         if cls == "BeforeFiller":
             return E.seq([], H, ["", ""] + TS_FILLER)
         return None
-    if cls in E.PY_LAYERS:
+    if cls in E.PY_LAYERS or cls in E.CORPUS_ONLY_LAYERS:
         return E.layer(cls, H)
     if cls == "AfterFiller":
         return E.seq(E.FILLER_CLOSED, H)
@@ -581,8 +583,8 @@ def run(tier: str, seed: int, replay: str | None = None) -> int:
     chk._tlast = time.time()
     load_known(chk)
     chk.rule = ("fragments = every fenced example of docs/*-linter.md that the document marks as violating or acceptable (re-extracted on "
-                "every run) + seeded random Python fragments aimed at the two modelled detectors (loops, += of strings / numbers / lists, "
-                "prints, main blocks); each fragment is linted alone and, for the pattern linters, embedded under context classes: every "
+                "every run) + seeded random Python fragments aimed at the modelled detectors (loops, += of strings / numbers / lists, "
+                "prints, main blocks, logger calls under nested / negated / case-varied verbose-like tests of all four forms); each fragment is linted alone and, for the pattern linters, embedded under context classes: every "
                 "statement position of CPython (def, async def, nested def, method, class body, class in class, if / elif / else, for / "
                 "while bodies and their else, try body / except / try-else / finally, with, match case, async for / async with) and of "
                 "TS/JS (function, arrow callback, class method, if / else, for, while, do-while, try / catch / finally, switch case, "
@@ -597,15 +599,15 @@ def run(tier: str, seed: int, replay: str | None = None) -> int:
                 "distinct = distinct (fragment text, context class)")
     chk.trusted_base += [
         "docs2cases: which fenced blocks count as examples and what the document claims about them (label / heading / inline marker rules, stated in translator/docs2cases.py); blocks it cannot parse are listed in the evidence, not judged",
-        "CPython ast is the parser oracle of the two modelled detectors: the abstract input is the image of ast.parse (harness/c19_embed.py conv); Model/Embed.v plug/copies/rename are compared with the parse of the really embedded text on sampled cases of every context class (algebra_ok)",
-        "four detectors are modelled (print-statement, string-concat-loop, stateless-class, method-property; message texts of method-property are not modelled); the others (pipeline, lbyl, stringly-typed, cqs, regex-in-loop, conditional-verbose, lazy-ignores, file-header, the TypeScript analyzers) are NOT modelled: for them the embedding law is tested on the implementation (metamorphic validation justified by the locality theorem, not a proof about those detectors)",
-        "inline suppression directives are outside the two models (fragments carrying noqa / thailint: comments are not judged by the models; C04 covers directives)",
+        "CPython ast is the parser oracle of the modelled detectors: the abstract input is the image of ast.parse (harness/c19_embed.py conv); Model/Embed.v plug/copies/rename are compared with the parse of the really embedded text on sampled cases of every context class (algebra_ok)",
+        "five detectors are modelled (print-statement, string-concat-loop, stateless-class, method-property, conditional-verbose; message texts of method-property are not modelled; the conditional-verbose model reports the logger call position while the implementation prints a constant column taken from Gen); the others (pipeline, lbyl, stringly-typed, cqs, regex-in-loop, lazy-ignores, file-header, the TypeScript analyzers) are NOT modelled: for them the embedding law is tested on the implementation (metamorphic validation justified by the locality theorem, not a proof about those detectors)",
+        "inline suppression directives are outside the models (fragments carrying noqa / thailint: comments are not judged by the models; C04 covers directives)",
     ]
-    chk.build(["theories/Props/C19.v"], ["EmbedGen"], known_v=["theories/Props/C19Known.v"])
+    chk.build(["theories/Props/C19.v"], ["EmbedGen", "Embed2Gen"], known_v=["theories/Props/C19Known.v"])
     _t(chk, "build")
     # only the hand-modelled sources of THIS property enlarge its budget (the shared fingerprint file covers all properties)
-    from translator import items_embed
-    mine = {f"{rel}::{','.join(names)}" for rel, names in items_embed.FINGERPRINTS}
+    from translator import items_embed, items_embed2
+    mine = {f"{rel}::{','.join(names)}" for rel, names in items_embed.FINGERPRINTS + items_embed2.FINGERPRINTS}
     chk.fingerprint_changed = [k for k in chk.fingerprint_changed if k in mine]
     scale = chk.budget_scale()
     extracted = docs2cases.extract()
@@ -801,6 +803,13 @@ def run(tier: str, seed: int, replay: str | None = None) -> int:
                 d = DETECTORS[det]
                 nf = len(d["flags"])
                 if bits is None:
+                    if c.get("coq_emb") is not None and not emb_bits and any(k in chk.known["known"] for k in d["flags"]):
+                        # the case was given to the judge but the model could not be evaluated at all (broken build): a law failure of a
+                        # detector with listed defects cannot be attributed - it is not shown as the failing input of this run
+                        msg = f"Model:{d['name']} law failures could not be attributed to the listed defects because the model could not be evaluated"
+                        if msg not in chk.broken:
+                            chk.broken.append(msg)
+                        continue
                     chk.violation({**payload, "note": f"{d['name']} law failure on a file outside the model's domain"})
                     continue
                 cand = bits[1 + det][:nf + 2]
